@@ -83,7 +83,8 @@ def build_history(rng, pv, codec, length, unknown_ids, unhandled):
     return hist
 
 
-def conversation(run, pv, rng, length, threshold, abrupt, label):
+def conversation(run, pv, rng, length, threshold, abrupt, label,
+                 force_play_compress=False):
     from minecraft.networking.connection import ConnectionContext
     from minecraft.networking.packets import Packet, clientbound
     codec = codec_for(pv)
@@ -107,8 +108,18 @@ def conversation(run, pv, rng, length, threshold, abrupt, label):
     hist = build_history(rng, pv, codec, length, unknown_ids, unhandled)
     state = {'frames': None, 'login_name': None}
     burst = rng.choice((1, 7, 49, 50, 51, 120, 10 ** 6))
+    if abrupt == 'reset':
+        burst = 10 ** 6
     encrypted = rng.random() < 0.25
     short_reads = rng.random() < 0.5
+    # 1.8 (protocol 47) can also switch compression on *during play* (packet
+    # 0x46); it is sent before anything that provokes an answer, so that the
+    # framing of every client frame is unambiguous
+    if force_play_compress:
+        threshold = None
+    play_compress = pv == 47 and threshold is None and (
+        force_play_compress or rng.random() < 0.7)
+    play_threshold = rng.choice((0, 64, 256))
 
     # A third of the conversations are the *second* session of a Connection
     # object whose first session used the opposite transport settings
@@ -141,6 +152,9 @@ def conversation(run, pv, rng, length, threshold, abrupt, label):
         state['handshake'] = hs
         state['login_name'] = scripts.login_offline(io, pv, threshold, codec,
                                                     encrypted=encrypted)
+        if play_compress:
+            io.send_frame(0x46, rv.encode(play_threshold))
+            io.enable_compression(play_threshold)
         buf = bytearray()
         n = 0
         for kind, (cid, cp), _exp in hist:
@@ -155,6 +169,9 @@ def conversation(run, pv, rng, length, threshold, abrupt, label):
         did, dp = codec.encode('play_disconnect', {'reason': '{"text":"bye"}'})
         buf += io.encode_frame(did, dp)
         io.send_raw(bytes(buf))
+        if abrupt == 'reset':
+            io.close(abrupt=True)       # RST: the next client write fails
+            return                      # with ECONNRESET, not EPIPE
         if abrupt:
             io.close()
             return
@@ -167,6 +184,7 @@ def conversation(run, pv, rng, length, threshold, abrupt, label):
          'burst': burst, 'abrupt': abrupt, 'codec': type(codec).__name__,
          'encrypted': encrypted, 'short_reads': short_reads,
          'second_session_of_object': warmup,
+         'compression_switched_on_in_play': play_compress,
          'kinds': [h[0] for h in hist][:20]}
     try:
         conn = pc.make_connection(server.port, rec, allowed_versions={pv})
@@ -201,6 +219,8 @@ def conversation(run, pv, rng, length, threshold, abrupt, label):
                 return 'done', None
             return 'inconclusive', 'server script: %r' % (server.errors[:1],)
         run.count('conversations')
+        if play_compress:
+            run.count('conversations.play_state_compression')
         if encrypted:
             run.count('conversations.encrypted')
         if short_reads:
@@ -219,6 +239,17 @@ def conversation(run, pv, rng, length, threshold, abrupt, label):
                           codec.packet_id('play_disconnect')))
         got_disconnect = bool(play_seen) and \
             play_seen[-1][0] == 'DisconnectPacket'
+        if abrupt == 'reset' and not got_disconnect:
+            # everything, including the disconnect packet, was delivered to
+            # the client's socket before the reset; bytes already received stay
+            # readable, so the packet must still be honoured
+            run.violation('play/reset-close-loses-disconnect', 'the peer reset'
+                          ' the connection after sending a disconnect packet; '
+                          'the client reported an error instead of honouring '
+                          'the packet it had already received', dict(
+                              w, exc=repr(rec.exceptions[:1]),
+                              delivered=len(play_seen)))
+            return 'done', None
         if abrupt and not got_disconnect:
             # the peer's close reset the connection before the client had
             # read the disconnect packet: the premise of the clause does not
@@ -229,7 +260,8 @@ def conversation(run, pv, rng, length, threshold, abrupt, label):
                               'are not a prefix of the history sent', w)
             return 'done', None
         if rec.exceptions:
-            mech = 'flush-to-closed-peer' if abrupt else 'clean-close'
+            mech = 'write-to-reset-peer' if abrupt == 'reset' else \
+                'flush-to-closed-peer' if abrupt else 'clean-close'
             run.violation('play/disconnect-reports-error/' + mech,
                           'a server disconnect packet was delivered and then '
                           'an error was reported',
@@ -281,6 +313,8 @@ def conversation(run, pv, rng, length, threshold, abrupt, label):
                               'connection after the disconnect packet', w)
         else:
             run.count('abrupt_conversations')
+            if abrupt == 'reset':
+                run.count('abrupt_conversations.reset')
         return 'done', w
     finally:
         server.stop()
@@ -317,6 +351,8 @@ def run(run):
     for pv in versions:
         for k in range(8 if thorough else 1):
             plan.append((pv, rng.choice((1, 5, 30, 60)), False))
+    for _ in range(60 if thorough else 6):
+        plan.append((47, rng.choice((5, 30, 60)), False, True))
     for _ in range(400 if thorough else 24):
         plan.append((rng.choice(versions), rng.choice((120, 320, 600)),
                      False))
@@ -326,14 +362,20 @@ def run(run):
     else:
         for _ in range(16):
             plan.append((rng.choice(versions), rng.choice((3, 10, 40)), True))
-    for i, (pv, length, abrupt) in enumerate(plan):
+    for _ in range(300 if thorough else 16):
+        plan.append((rng.choice(versions), rng.choice((3, 30, 55, 70, 90)),
+                     'reset'))
+    for i, entry in enumerate(plan):
+        pv, length, abrupt = entry[:3]
+        force_pc = len(entry) > 3
         if not run.mine(i):
             continue
-        threshold = rng.choice((None, 0, 64))
+        threshold = rng.choice((None, 0, 64)) if pv != 47 else \
+            rng.choice((None, None, None, 64))
         outcome = None
         for attempt in range(3):
             outcome, info = conversation(run, pv, rng, length, threshold,
-                                         abrupt, i)
+                                         abrupt, i, force_pc)
             if outcome == 'done':
                 break
         run.case((pv, length, threshold, abrupt, i))
@@ -346,3 +388,4 @@ def run(run):
     run.require('conversations', 20)
     run.require('echoes_seen', 50)
     run.require('versions', 30)
+    run.require('conversations.play_state_compression', 2)
